@@ -133,10 +133,12 @@ def slot_queries(pid, entries, quickmax, thoroughmax, extra=None, nmin=1, extra_
                     for tv in list(range(0, (wdw[1] if wdw else n) + 1)) + [-1]:
                         d2 = dict(d); d2["ATTVAL"] = tv
                         # quick: all of n <= 2, plus at n = 3 the chain and star forests over the full window (re-attachment to a descendant / sibling)
-                        t2 = ("quick", "thorough") if (n <= 2 or (n == 3 and wdw[:2] == (0, 3) and fv in ((-1, 0, 1), (-1, 0, 0)))) else ("thorough",)
+                        t2 = ("quick", "thorough") if (n <= 2 or (n == 3 and wdw[:2] == (0, 3) and fv in ((-1, 0, 1), (-1, 0, 0)))
+                                                    or (n == 4 and wdw == (0, 4, 2) and fv == (-1, 0, 0, 0) and tv in (1, 3))) else ("thorough",)   # middle child of three leaves its parent
                         qs.append(Q(name + f"_t{tv if tv >= 0 else 'o'}", src, e, d2, unwind=n + 5, unwindset=lib, tiers=t2, ub=True))
                     continue
-                qs.append(Q(name, src, e, d, unwind=n + 5, unwindset=lib, tiers=tiers, ub=True))
+                tq = ("quick", "thorough") if (e == "vh_delete_gc" and with_forest and n == 4 and wdw == (0, 4, 2) and fv == (-1, 0, 0, 0)) else tiers
+                qs.append(Q(name, src, e, d, unwind=n + 5, unwindset=lib, tiers=tq, ub=True))
     return qs
 @prop("C03")
 def c03():
@@ -189,7 +191,9 @@ META["C18"] = {
 }
 @prop("C18")
 def c18():
-    return feat_queries() + [Q("fref_alloc_lo", "C18_features.cpp", "vh_fref_alloc", {"BITS_LO": 0, "BITS_HI": 4096}, unwind=34),
+    fs = [Q(f"feat_settings_n{n}", "feat.cpp", "vh_feat_settings", {"NSET": n, "NF": 1, "VH_FEATSET": None}, unwind=n + 3, unwindset={"vh_bytes": 4 * n + 2},
+            expose=["_ZN12_GLOBAL__N_119readFeatureSettingsEPKhPN9graphite214FeatureSettingEm"], unit_flags={"FeatureMap": ["-fno-inline"]}) for n in (1, 2, 3)]
+    return fs + feat_queries() + [Q("fref_alloc_lo", "C18_features.cpp", "vh_fref_alloc", {"BITS_LO": 0, "BITS_HI": 4096}, unwind=34),
             Q("fref_alloc_hi", "C18_features.cpp", "vh_fref_alloc", {"BITS_LO": 4096, "BITS_HI": 8192}, unwind=34),
             Q("fmap_laws", "C18_features.cpp", "vh_fmap_laws", unwind=34, unwindset={"reserve": 4, "insert": 6, "_insert_default": 6}, tiers=("thorough",), timeout=1700)]
 
@@ -426,10 +430,24 @@ def c19():
             qs.append(Q(f"lineend_n{n}_at{at}", "justify.cpp", "vh_lineend", {"NS": n, "AT": at}, unwind=n + 5, unwindset={"freeSlot": n + 2}))
     for n in (1, 2):
         for fl in (0, 1):
-            qs.append(Q(f"justify_n{n}_flags{fl}", "justify.cpp", "vh_justify", {"NS": n, "SFLAGS": fl, "NSPARE": 2}, unwind=n + 5,
-                        unwindset={"justify": n + 3, "newJustify": 4, "LoadSlot": 3, "linkClusters": n + 2, "positionSlots": n + 2, "insert": 4, "freeSlot": n + 2},
+            qs.append(Q(f"justify_n{n}_flags{fl}", "justify.cpp", "vh_justify", dict({"NS": n, "SFLAGS": fl, "NSPARE": 2}, **({"PREPOOL": 1} if n > 1 else {})), unwind=n + 5,
+                        unwindset={"_ZN9graphite24Slot10floodShiftENS_8PositionEi.recursion": 2, "_ZN9graphite24Slot8finaliseEPKNS_7SegmentEPKNS_4FontERNS_8PositionERNS_4RectEhRfbbi.recursion": 2, "make_pool": 8, "justify": n + 3, "newJustify": 4, "LoadSlot": 3, "linkClusters": n + 2, "positionSlots": n + 2, "insert": 4, "freeSlot": n + 2},
                         tiers=("thorough",), timeout=1700, cc_defs=["LL_MEM_CASES=0,8,16,20,24,32,36,40,48,64,72,80,96,160"]))
             qs[-1].unwindset.update({"lid:ll_calloc_split": 16, "lid:ll_malloc_split": 16, "lid:ll_realloc_split": 16, "lid:ll_memmove_sym": 16})
+    JU = {"_ZN9graphite24Slot10floodShiftENS_8PositionEi.recursion": 2, "_ZN9graphite24Slot8finaliseEPKNS_7SegmentEPKNS_4FontERNS_8PositionERNS_4RectEhRfbbi.recursion": 2,   # all slots are bases: no recursion is feasible (unwinding assertions check it)
+          "make_pool": 8, "justify": 6, "newJustify": 4, "LoadSlot": 3, "linkClusters": 6, "positionSlots": 6, "insert": 4, "freeSlot": 6, "reverseSlots": 6,
+          "lid:ll_calloc_split": 16, "lid:ll_malloc_split": 16, "lid:ll_realloc_split": 16, "lid:ll_memmove_sym": 16}
+    for n in (1, 2, 3):     # negative width, no line-end contextuals, every text/font direction pair: the early exit leaves the line alone
+        for jd in (0, 1, 2, 3):
+            for nw in (1, 2):   # 1: any negative width (n >= 2: thorough tier, the SAT solver has to prune the dead justification code); 2: width = -1
+                if nw == 2 and n == 1: continue
+                qs.append(Q(f"justify_negwidth{'' if nw == 1 else '_m1'}_n{n}_dir{jd}", "justify.cpp", "vh_justify", dict({"NS": n, "SFLAGS": 0, "NSPARE": 2, "JDIR": jd, "NEGWIDTH": nw}, **({"PREPOOL": 1} if n > 1 else {})),
+                            unwind=n + 5, unwindset=dict(JU, justify=n + 2), cc_defs=["LL_MEM_CASES=0,8,16,20,24,32,36,40,48,64,72,80,96,160"],
+                            tiers=("quick", "thorough") if (n == 1 or nw == 2) else ("thorough",), timeout=None if (n == 1 or nw == 2) else 1700))
+    for n in (1, 2):        # direction mismatch: reversed on entry and restored on exit
+        for jd in (1, 2):
+            qs.append(Q(f"justify_n{n}_flags0_dir{jd}", "justify.cpp", "vh_justify", dict({"NS": n, "SFLAGS": 0, "NSPARE": 2, "JDIR": jd}, **({"PREPOOL": 1} if n > 1 else {})),
+                        unwind=n + 5, unwindset=dict(JU, justify=n + 2), tiers=("thorough",), timeout=1700, cc_defs=["LL_MEM_CASES=0,8,16,20,24,32,36,40,48,64,72,80,96,160"]))
     return qs
 
 # ------------------------------------------------------------------------------------------- C10
